@@ -189,6 +189,139 @@ theorem fillNulls_eq (n : Nat) (sv : SV) (h : sv.count ≤ 65535) (t : CqlTy) :
       simp [hfull, this, List.replicate_succ', List.append_assoc]
       omega
 
+/-! ### `RowWriter`, `from_closure` / `from_serializable`: the count is the number of cells, refusal iff > 65535 -/
+
+open ScyllaVerif.Proofs.Row (parseFuel_append)
+
+/-- The writer's invariant: `value_count` (an unbounded count) is the number of cells in its buffer. -/
+def WInv (w : RW) : Prop := ∃ cs, parseCells w.buf = some cs ∧ cs.length = w.count
+
+/-- A row that may be appended: its count is the number of its cells (e.g. any `Inv` row). -/
+def RowOk (sv : SV) : Prop := ∃ cs, parseCells sv.bytes = some cs ∧ cs.length = sv.count
+
+/-- Every operation of the body writes through a well-behaved serializer / appends a consistent row. -/
+def GoodOps {ε : Type} (ops : List (WOp ε)) : Prop :=
+  ∀ op, op ∈ ops → match op with
+    | .cell f => Appends f ∧ WritesCell f
+    | .append sv => RowOk sv
+
+theorem winv_new : WInv RW.new := ⟨[], by decide, rfl⟩
+
+/-- **Every reachable writer state**: after any body that ran to its end, `value_count` equals the number of
+cells in the buffer AND the number of values the body bound — with no bound on either (70000 values are counted
+as 70000). -/
+theorem writer_count_eq_cells {ε : Type} (ops : List (WOp ε)) (hg : GoodOps ops) (w w' : RW) (hw : WInv w)
+    (h : runW ops w = (w', none)) : WInv w' ∧ w'.count = w.count + totalValues ops := by
+  induction ops generalizing w with
+  | nil => simp only [runW, Prod.mk.injEq, and_true] at h; subst h; exact ⟨hw, by simp [totalValues]⟩
+  | cons op ops ih =>
+    have hg' : GoodOps ops := fun o ho => hg o (by simp [ho])
+    have hop := hg op (by simp)
+    cases op with
+    | cell f =>
+      simp only at hop
+      simp only [runW, RW.makeCell] at h
+      have hc := hop.2 w.buf
+      generalize f w.buf = r at h hc
+      obtain ⟨b, oe⟩ := r
+      cases oe with
+      | some e => simp at h
+      | none =>
+        simp only at h
+        obtain ⟨c, hcell, hb⟩ := hc rfl
+        simp only at hb
+        obtain ⟨cs, hp, hlen⟩ := hw
+        unfold parseCells at hp
+        obtain ⟨x, hx⟩ := parseFuel_snoc c hcell _ w.buf cs hp
+        have hw1 : WInv ⟨b, w.count + 1⟩ :=
+          ⟨cs ++ [x], by simp only [hb]; exact parseFuel_canon _ _ _ hx, by simp [hlen]⟩
+        obtain ⟨hi, hcount⟩ := ih hg' _ hw1 h
+        exact ⟨hi, by simp only [hcount, totalValues, List.map_cons, List.sum_cons, WOp.values]; omega⟩
+    | append sv =>
+      simp only at hop
+      simp only [runW, RW.appendRow] at h
+      obtain ⟨cs, hp, hlen⟩ := hw
+      obtain ⟨cs2, hp2, hlen2⟩ := hop
+      unfold parseCells at hp hp2
+      have hw1 : WInv ⟨w.buf ++ sv.bytes, w.count + sv.count⟩ :=
+        ⟨cs ++ cs2, parseFuel_canon _ _ _ (parseFuel_append _ _ _ hp _ _ _ hp2), by simp [hlen, hlen2]⟩
+      obtain ⟨hi, hcount⟩ := ih hg' _ hw1 h
+      exact ⟨hi, by simp only [hcount, totalValues, List.map_cons, List.sum_cons, WOp.values]; omega⟩
+
+/-- A successful `from_closure` / `from_serializable`: the reported count equals the number of encoded cells,
+equals the number of values bound, and is at most 65535. -/
+theorem from_closure_ok {ε : Type} (ops : List (WOp ε)) (hg : GoodOps ops) (sv : SV)
+    (h : fromClosure ops = .ok sv) : Inv sv ∧ sv.count = totalValues ops := by
+  unfold fromClosure at h
+  generalize hr : runW ops RW.new = r at h
+  obtain ⟨w, oe⟩ := r
+  cases oe with
+  | some e => simp at h
+  | none =>
+    simp only at h
+    obtain ⟨⟨cs, hp, hlen⟩, hcount⟩ := writer_count_eq_cells ops hg RW.new w winv_new hr
+    cases hf : w.finish with
+    | none => simp [hf] at h
+    | some sv' =>
+      simp only [hf, Except.ok.injEq] at h
+      subst h
+      unfold RW.finish u16Max at hf
+      split at hf
+      · rename_i hle
+        simp only [Option.some.injEq] at hf
+        subst hf
+        exact ⟨⟨hle, cs, hp, hlen⟩, by simp [hcount, RW.new]⟩
+      · cases hf
+
+/-- **Refusal iff more than 65535 values**: when every value serializes, `from_closure` answers `TooManyValues`
+exactly when the body bound more than `u16::MAX` values (however they were bound: cell by cell, or by appending
+rows whose sum crosses the bound) — and then no `SerializedValues` exists at all. -/
+theorem from_closure_too_many_iff {ε : Type} (ops : List (WOp ε)) (hg : GoodOps ops)
+    (hrun : (runW ops RW.new).2 = none) :
+    fromClosure ops = .error .tooManyValues ↔ totalValues ops > 65535 := by
+  unfold fromClosure
+  generalize hr : runW ops RW.new = r at hrun
+  obtain ⟨w, oe⟩ := r
+  simp only at hrun
+  subst hrun
+  obtain ⟨_, hcount⟩ := writer_count_eq_cells ops hg RW.new w winv_new hr
+  simp only [RW.new, Nat.zero_add] at hcount
+  unfold RW.finish u16Max
+  simp only [hcount]
+  by_cases hle : totalValues ops ≤ 65535
+  · simp only [hle, if_true]
+    constructor
+    · intro h; cases h
+    · intro h; omega
+  · simp only [hle, if_false]
+    constructor
+    · intro _; omega
+    · intro _; trivial
+
+/-- The closed form the driver uses for long runs of successfully written cells. -/
+theorem writeCells_eq {ε : Type} (cells : List Bytes) (w : RW) :
+    runW (cells.map (fun c => WOp.cell (ε := ε) (fun b => (b ++ c, none)))) w = (w.writeCells cells, none) := by
+  induction cells generalizing w with
+  | nil => simp [runW, RW.writeCells]
+  | cons c cs ih =>
+    simp only [List.map_cons, runW, RW.makeCell, ih, RW.writeCells, List.flatten_cons, List.length_cons]
+    simp [List.append_assoc]; omega
+
+/-- Non-vacuity: 65536 nulls bound cell by cell are refused, 65535 are accepted with count 65535; two rows of
+40000 values appended into one writer are refused although each is fine on its own. -/
+example :
+    (RW.new.writeCells (List.replicate 65536 nullCell)).finish = none ∧
+    ((RW.new.writeCells (List.replicate 65535 nullCell)).finish.map (·.count)) = some 65535 ∧
+    ((RW.new.appendRow ⟨[], 40000⟩).appendRow ⟨[], 40000⟩).finish = none := by
+  refine ⟨?_, ?_, ?_⟩
+  · unfold RW.finish
+    simp only [RW.writeCells, RW.new, List.length_replicate, u16Max]
+    rw [if_neg (by decide)]
+  · unfold RW.finish
+    simp only [RW.writeCells, RW.new, List.length_replicate, u16Max]
+    rw [if_pos (by decide)]; rfl
+  · decide
+
 /-! ## Part 2 — serialization: mismatches are always rejected
 
 `ser` is *value-directed* (as the Rust impls are): the element type of an empty `Vec`, the type behind a `None`
